@@ -23,6 +23,7 @@ struct CaseSource {
         std::function<Plan(uint64_t run_seed, uint64_t index)> make;
         // optional cross-execution oracle (C15/C16/C17/C08...): gets the plan and its result
         std::function<void(const Plan &, const RunResult &, std::vector<Violation> &)> post;
+        bool isolate = false; // every execution in a forked child (C17: process-wide state must not carry over between runs)
 };
 
 struct BatchOut {
